@@ -97,14 +97,16 @@ def explore(check_name, body, seed=0, max_paths=20000, keep_smt2=False, stop_at_
                 ob = z3.BoolVal(ob)
             p.solver.push()
             p.solver.add(z3.Not(ob))
-            if keep_smt2:
-                st.smt2.append((check_name + ": " + lab, p.solver.to_smt2()))
+            text = p.solver.to_smt2() if keep_smt2 else None
             t0 = time.time()
             r = p.solver.check()
             st.solver_s += time.time() - t0
             st.queries += 1
             if r == z3.unsat:
                 st.discharged += 1
+                if keep_smt2 and len(st.smt2) < 600:
+                    # only discharged obligations go to the second solver (a failing one is reported as such, not re-asked)
+                    st.smt2.append((check_name + ": " + lab, text))
             elif r == z3.sat:
                 f = Failure(check_name, lab, model_dict(p.solver.model()), list(p.trace), list(p.decisions))
                 if f.key() not in seen_fail:
